@@ -515,6 +515,17 @@ def np_ceil(ev, state, node):
     return SymVal(T.REAL, z3.ToReal(r), ('integral', r))
 
 
+@q('numpy.floor')
+def np_floor(ev, state, node):
+    v = ev.eval(state, node.args[0])
+    if v.ty == T.INT:
+        return v
+    x = to_real(v)
+    r = z3.Int(fresh_name('floor'))
+    state.assume(z3.ToReal(r) <= x, x - z3.ToReal(r) < 1)
+    return SymVal(T.REAL, z3.ToReal(r), ('integral', r))
+
+
 def method(ev, state, node, recv, ref, name):
     if recv.ty[0] == 'arr':
         if name in ('min', 'max') and not node.args:
